@@ -2,10 +2,14 @@
 import random
 
 import vlib
+import progcommon as pc
 import x86common as xc
 
 PROP = "C01"
 OWNS = lambda c: c in ("reg", "xmm", "mem", "rip", "out-spurious-error")
+
+# whole programs (Trace_Prog): results of data instructions in the states a program really reaches
+PROG_OWNS = lambda c, cls, m: cls == "data" and c in ("reg", "xmm", "mem", "out-spurious-error")
 
 
 def run(tier, seed):
@@ -21,10 +25,19 @@ def run(tier, seed):
                                       "note": "every 8-bit operand pair x carry-in (all counts for shifts) of every 8-bit form/shape against tables printed by TLC from X86.tla"}
         xc.finish_cov(rep, res, mc, "Every non-control, non-stack form of spec/forms.json in register and memory shapes (9 addressing forms, FS/GS, "
                       "aliasing registers); components judged here: all registers, XMM, every memory byte, next RIP, 'form still executes'.")
+        pc.phase(rep, tier, seed + 8100, wd, PROG_OWNS)
         return rep.finish()
     finally:
         vlib.cleanup(wd)
 
 
 def replay(path, seed):
+    import json as _j
+    _c = _j.load(open(path))["case"]
+    if _c.get("prog"):
+        _wd = vlib.workdir(PROP.lower() + "r")
+        try:
+            return pc.replay(vlib.Report(PROP, "quick", seed, "model_checking"), _c, _wd, PROG_OWNS)
+        finally:
+            vlib.cleanup(_wd)
     return xc.std_replay(PROP, path, seed, OWNS)
